@@ -1232,6 +1232,10 @@ fn merge(left_struct_array: &StructArray, right_struct_array: &StructArray) -> S
             }
         });
 
+    if fields.is_empty() {
+        // a struct without fields cannot infer its length from the columns
+        return StructArray::new_empty_fields(left_struct_array.len(), merged_validity);
+    }
     StructArray::try_new(Fields::from(fields), columns, merged_validity).unwrap()
 }
 
@@ -1387,6 +1391,10 @@ fn merge_with_schema(
         }
     }
 
+    if output_fields.is_empty() {
+        // a struct without fields cannot infer its length from the columns
+        return StructArray::new_empty_fields(left_struct_array.len(), merged_validity);
+    }
     StructArray::try_new(Fields::from(output_fields), columns, merged_validity).unwrap()
 }
 
@@ -1970,6 +1978,13 @@ mod tests {
             assert!(x.is_valid(1));
             assert_eq!(inner.column_by_name("y").unwrap().null_count(), 0);
         }
+    }
+
+    #[test]
+    fn test_merge_structs_without_fields() {
+        let empty = StructArray::new_empty_fields(3, None);
+        assert_eq!(merge(&empty, &empty).len(), 3);
+        assert_eq!(merge_with_schema(&empty, &empty, &Fields::empty()).len(), 3);
     }
 
     #[test]
